@@ -1,9 +1,12 @@
 //! Runs another engine's scenario with a trace-level log capture and searches the captured text for secrets.
 //! in : [inner_engine, n] needle_1 ... needle_n  inner tokens...
 //!        inner_engine: 1 c01_session | 18 c18_session | 5 TlsDemux::select on the SNI given as the only inner token (its result is logged
-//!                      with {:?} by core.rs)
-//!        needles: byte strings that must not occur in any log line
-//! out: [lines captured, leaks] then per leaked needle [needle index] excerpt(bytes of the first offending line, 240 max)
+//!                      with {:?} by core.rs) | 6 one TLS connection to the real listener: [auth_cfg as c01_session, http2] server-name
+//!                      (a `CONNECT _check` without credentials follows when the handshake is answered)
+//!        needles: byte strings that must not occur in any log line, neither verbatim nor as the decimal byte array that `{:?}`
+//!                 prints for a byte slice holding them (caplog::shows)
+//! out: [lines captured, leaks, (999 = panic | 996 = the environment did not let the scenario run)] then per leaked needle
+//!      [needle index] excerpt(bytes of the first offending line, 240 max)
 use crate::util::*;
 
 pub fn run(toks: Vec<Tok>) -> Vec<Tok> {
@@ -24,28 +27,91 @@ pub fn run(toks: Vec<Tok>) -> Vec<Tok> {
             }
             vec![]
         }
+        6 => listener_connection(rest),
         _ => vec![],
     });
     // let detached tasks of the scenario say their last words
     std::thread::sleep(std::time::Duration::from_millis(50));
     let lines = crate::caplog::stop();
     let mut out = vec![vec![lines.len() as u128, 0]];
-    if r.is_err() {
-        out[0].push(999);
+    match &r {
+        Err(_) => out[0].push(999),
+        Ok(x) if x.len() == 1 && x[0] == vec![996] => out[0].push(996),
+        Ok(_) => {}
     }
     let mut leaks = 0;
     for (i, nd) in needles.iter().enumerate() {
         if nd.is_empty() {
             continue;
         }
-        if let Some(l) = lines.iter().find(|l| l.as_bytes().windows(nd.len()).any(|w| w == nd.as_slice())) {
+        if let Some(l) = lines.iter().find(|l| crate::caplog::shows(l.as_bytes(), nd)) {
             leaks += 1;
             out.push(vec![i as u128]);
-            out.push(tok(&l.as_bytes()[..l.len().min(240)]));
+            out.push(tok(&excerpt(l.as_bytes(), nd)));
         }
     }
     out[0][1] = leaks;
     out
+}
+
+/// at most 240 bytes of the offending line, the place that shows the needle included
+fn excerpt(line: &[u8], nd: &[u8]) -> Vec<u8> {
+    let dec = crate::caplog::decimal_array(nd).into_bytes();
+    let at = line
+        .windows(nd.len())
+        .position(|w| w == nd)
+        .or_else(|| line.windows(dec.len().max(1)).position(|w| w == dec.as_slice()))
+        .unwrap_or(0);
+    let from = at.saturating_sub(120);
+    line[from..line.len().min(from + 240)].to_vec()
+}
+
+/// inner engine 6: the real listener, one TLS connection with the given server name (which may name a host the endpoint does
+/// not serve), then - when the endpoint answered the handshake - a CONNECT without credentials
+fn listener_connection(toks: Vec<Tok>) -> Vec<Tok> {
+    use tokio::io::{AsyncReadExt, AsyncWriteExt};
+    use trusttunnel::authentication::registry_based::RegistryBasedAuthenticator;
+    use trusttunnel::authentication::Authenticator;
+    let cfg = toks[0].clone();
+    let name = String::from_utf8_lossy(&bytes(&toks[1])).to_string();
+    let rt = tokio::runtime::Builder::new_multi_thread().worker_threads(2).enable_all().build().unwrap();
+    rt.block_on(async move {
+        let auth: Option<std::sync::Arc<dyn Authenticator>> = match cfg[0] {
+            0 => None,
+            _ => Some(std::sync::Arc::new(RegistryBasedAuthenticator::new(&crate::engines::c01::clients()))),
+        };
+        let make_settings = |addr: std::net::SocketAddr| {
+            use trusttunnel::settings::{Http1Settings, Http2Settings, ListenProtocolSettings, Settings};
+            Settings::builder()
+                .listen_address(addr)
+                .unwrap()
+                .listen_protocols(ListenProtocolSettings {
+                    http1: Some(Http1Settings::builder().build()),
+                    http2: Some(Http2Settings::builder().build()),
+                    quic: None,
+                })
+                .allow_private_network_connections(true)
+                .build()
+                .unwrap()
+        };
+        let Some(endpoint) = crate::front::start(make_settings, crate::ctxutil::basic_hosts, auth).await else {
+            return vec![vec![996]];
+        };
+        let alpn: &[&[u8]] = if cfg[1] == 1 { &[b"h2"] } else { &[b"http/1.1"] };
+        let mut answered = 0u128;
+        if let Some(mut s) = crate::front::tls_connect(endpoint.addr, &name, alpn).await {
+            answered = 1;
+            if cfg[1] != 1 {
+                let _ = s.write_all(b"CONNECT _check HTTP/1.1\r\nHost: x\r\n\r\n").await;
+            }
+            let mut buf = [0u8; 256];
+            let _ = tokio::time::timeout(std::time::Duration::from_millis(300), s.read(&mut buf)).await;
+        }
+        // the endpoint says what it does with the connection on a task of its own
+        tokio::time::sleep(std::time::Duration::from_millis(100)).await;
+        drop(endpoint);
+        vec![vec![answered]]
+    })
 }
 
 fn flat_pairs(t: &Tok) -> Vec<(String, Vec<u8>)> {
